@@ -78,9 +78,9 @@ func main() {
 		{"snappy-with-length", maxBody, func(s io.Reader, d *bytes.Buffer) error { return sn.CompressWithLength(s, d) }, func(s io.Reader, d *bytes.Buffer) error { return sn.DecompressWithLength(s, d) }},
 	}
 	var lens []int
-	limit := 4096
+	limit := 16384
 	if !c.Thorough() {
-		limit = 1200
+		limit = 4096
 	}
 	for n := 0; n <= limit; n++ {
 		lens = append(lens, n)
